@@ -32,8 +32,12 @@ type Solver struct {
 	out       *bufio.Reader
 	defined   map[int32]bool
 	declared  map[string]*Term
-	apps      []*Term // abstracted unicode predicate/function applications of this session
+	apps      []*Term // abstracted unicode predicate/function applications of this scope (CEGAR)
 	NLemmas   int
+	scope     bool              // a path scope is open
+	baseSyms  map[string]uint16 // symbols declared at base level (persist across paths)
+	baseApps  map[string]bool   // "fn|sym" applications defined at base level with their full definition
+	baseFns   map[string]bool
 	timeoutMs int
 	logf      *os.File
 
@@ -91,14 +95,68 @@ func (s *Solver) send(str string) {
 	s.in.WriteString(str)
 }
 
-// Reset clears all assertions and definitions.
+// Reset clears everything, including base-level definitions.
 func (s *Solver) Reset() {
 	s.defined = map[int32]bool{}
 	s.declared = map[string]*Term{}
 	s.apps = nil
+	s.scope = false
+	s.baseSyms = map[string]uint16{}
+	s.baseApps = map[string]bool{}
+	s.baseFns = map[string]bool{}
 	s.send("(reset)\n(set-option :produce-models true)\n")
 	if s.timeoutMs > 0 && !strings.Contains(s.bin, "cvc5") {
 		s.send(fmt.Sprintf("(set-option :timeout %d)\n", s.timeoutMs))
+	}
+}
+
+// BeginPath opens a fresh scope for one path; base-level definitions survive.
+func (s *Solver) BeginPath() {
+	if s.scope {
+		s.send("(pop 1)\n")
+	}
+	s.send("(push 1)\n")
+	s.scope = true
+	s.defined = map[int32]bool{}
+	s.declared = map[string]*Term{}
+	s.apps = nil
+}
+
+func isBaseApp(t *Term) bool { return (t.op == OpPred || t.op == OpFn32) && t.a.op == OpSym }
+
+func baseKey(t *Term) string { return t.name + "|" + t.a.name }
+
+// NeedBase reports whether t is a unicode application on a plain symbol that has not yet
+// been given its full definition at base level.
+func (s *Solver) NeedBase(t *Term) bool { return isBaseApp(t) && !s.baseApps[baseKey(t)] }
+
+// AddBase defines applications at base level (closing the current scope first): the
+// symbol, the complete range formula of the function, and a constant equal to its value.
+// Their internalisation is paid once per solver process instead of once per path.
+func (s *Solver) AddBase(apps []*Term) {
+	if s.scope {
+		s.send("(pop 1)\n")
+		s.scope = false
+	}
+	for _, t := range apps {
+		if !s.NeedBase(t) {
+			continue
+		}
+		sym := t.a
+		if w, ok := s.baseSyms[sym.name]; ok && w != sym.w {
+			// same name, other width (different harness): start over
+			s.Reset()
+		}
+		if _, ok := s.baseSyms[sym.name]; !ok {
+			s.baseSyms[sym.name] = sym.w
+			s.send(fmt.Sprintf("(declare-const |%s| %s)\n", sym.name, sortOf(sym.w)))
+		}
+		if !s.baseFns[t.name] {
+			s.baseFns[t.name] = true
+			s.send(unicodeFullSMT(t.name))
+		}
+		s.baseApps[baseKey(t)] = true
+		s.send(fmt.Sprintf("(declare-const %s %s)\n(assert (= %s (%s |%s|)))\n", smtRef(t), sortOf(t.w), smtRef(t), t.name, sym.name))
 	}
 }
 
@@ -111,13 +169,14 @@ func (s *Solver) define(t *Term) {
 	case OpConst:
 		return
 	case OpSym:
-		if _, ok := s.declared[t.name]; !ok {
-			s.declared[t.name] = t
-			s.send(fmt.Sprintf("(declare-const |%s| %s)\n", t.name, sortOf(t.w)))
-		}
+		s.declareSym(t)
 		return
 	}
 	if s.defined[t.id] {
+		return
+	}
+	if isBaseApp(t) {
+		s.declareSym(t.a)
 		return
 	}
 	// iterative post-order to avoid deep recursion on long chains
@@ -136,10 +195,11 @@ func (s *Solver) define(t *Term) {
 				continue
 			}
 			if k.op == OpSym {
-				if _, ok := s.declared[k.name]; !ok {
-					s.declared[k.name] = k
-					s.send(fmt.Sprintf("(declare-const |%s| %s)\n", k.name, sortOf(k.w)))
-				}
+				s.declareSym(k)
+				continue
+			}
+			if isBaseApp(k) {
+				s.declareSym(k.a)
 				continue
 			}
 			if !s.defined[k.id] {
@@ -163,6 +223,19 @@ func (s *Solver) define(t *Term) {
 	}
 }
 
+func (s *Solver) declareSym(t *Term) {
+	if w, ok := s.baseSyms[t.name]; ok {
+		if w != t.w {
+			fmt.Fprintf(os.Stderr, "solver: symbol %s redeclared with another width\n", t.name)
+		}
+		return
+	}
+	if _, ok := s.declared[t.name]; !ok {
+		s.declared[t.name] = t
+		s.send(fmt.Sprintf("(declare-const |%s| %s)\n", t.name, sortOf(t.w)))
+	}
+}
+
 func (s *Solver) Assert(t *Term) {
 	s.define(t)
 	s.send("(assert " + smtRef(t) + ")\n")
@@ -180,14 +253,14 @@ func (s *Solver) readLine() (string, error) {
 // answer the model is checked against the real functions and, where it disagrees, a range
 // lemma (a true fact about the function) is asserted and the query repeated. unsat under
 // the abstraction is unsat; sat is only reported for models consistent with the functions.
-func (s *Solver) Check(wantModel bool, extra ...*Term) (SatResult, Model) {
+func (s *Solver) Check(symTerms []*Term, extra ...*Term) (SatResult, Model) {
 	for _, e := range extra {
 		s.define(e)
 	}
 	t0 := time.Now()
 	defer func() { s.Time += time.Since(t0) }()
 	for iter := 0; ; iter++ {
-		res, vals, syms := s.checkOnce(extra)
+		res, vals, syms := s.checkOnce(symTerms, extra)
 		if res != Sat {
 			s.count(res)
 			return res, nil
@@ -241,13 +314,19 @@ func (s *Solver) count(r SatResult) {
 
 // checkOnce runs one check-sat under push/pop and, on sat, fetches the values of all
 // declared symbols followed by (argument, result) of every abstracted application.
-func (s *Solver) checkOnce(extra []*Term) (SatResult, []uint64, []string) {
+func (s *Solver) checkOnce(symTerms []*Term, extra []*Term) (SatResult, []uint64, []string) {
 	s.send("(push 1)\n")
 	for _, e := range extra {
 		s.send("(assert " + smtRef(e) + ")\n")
 	}
 	s.send("(check-sat)\n")
 	s.in.Flush()
+	tq := time.Now()
+	defer func() {
+		if s.logf != nil {
+			fmt.Fprintf(s.logf, "; took %.1fms\n", float64(time.Since(tq).Microseconds())/1000)
+		}
+	}()
 	res := Unknown
 	sawErr := false
 	for {
@@ -279,11 +358,11 @@ func (s *Solver) checkOnce(extra []*Term) (SatResult, []uint64, []string) {
 	}
 	var vals []uint64
 	var syms []string
-	if res == Sat && (len(s.declared) > 0 || len(s.apps) > 0) {
+	if res == Sat && (len(symTerms) > 0 || len(s.apps) > 0) {
 		var sb strings.Builder
 		sb.WriteString("(get-value (")
-		for name := range s.declared {
-			syms = append(syms, name)
+		for _, st := range symTerms {
+			syms = append(syms, st.name)
 		}
 		sort.Strings(syms)
 		for _, name := range syms {
